@@ -5,6 +5,7 @@ calls into the crate are inlined (frame stack); calls that leave the crate go to
 Anything the engine cannot interpret raises Unsupported (=> the whole run is inconclusive, never a pass).
 """
 import re, copy, itertools, time
+from os import environ as _os_env
 import z3
 from .mirparse import *
 from .program import Program, Unsupported, strip_generics, base_type, last_seg, subst, split_path, generic_args
@@ -259,7 +260,8 @@ class Executor:
         self.loop_bounds = loop_bounds or {}  # regex on function name -> bound
         import os as _os
         self.solver = z3.SolverFor(_os.environ['MIRSYM_LOGIC']) if _os.environ.get('MIRSYM_LOGIC') else z3.Solver()
-        self.solver.set('timeout', timeout_ms)
+        self.solver.set('timeout', 1500)
+        self.timeout_ms = timeout_ms
         self.stats = {'paths': 0, 'solver_calls': 0, 'solver_time': 0.0, 'forks': 0, 'calls_inlined': 0,
                       'blocks': 0, 'summaries_used': {}, 'functions': {}}
         self.drop_impls = {}
@@ -269,6 +271,7 @@ class Executor:
                 self.drop_impls[last_seg(ii.self_ty)] = f
         self.max_paths = 200000
         self.type_hooks = []
+        self.cut_revisit = None   # (function-name regex, k): stop a path when a block of that function is entered for the (k+1)-th time, keeping its frames
 
     # ------------------------------------------------------------ values
     def fresh_of_type(self, ty, name):
@@ -471,7 +474,7 @@ class Executor:
             from .mirparse import SIMPLE_CONSTS
             if last in SIMPLE_CONSTS and 'amq_protocol' not in c:
                 return self.eval_const(SIMPLE_CONSTS[last])
-            if last in self.prog.ext_consts and 'amq_protocol' in c:
+            if last in self.prog.ext_consts and ('amq_protocol' in c or 'input_buffer' in c):
                 ty, val = self.prog.ext_consts[last]
                 w_, s_ = INT_TYPES[ty]
                 return Int(val, w_, s_)
@@ -641,6 +644,10 @@ class Executor:
             except z3.Z3Exception:
                 pass
         t0 = time.time()
+        # a fresh (non-incremental) solver per query: z3's incremental core skips the preprocessing that
+        # decides linear bit-vector arithmetic quickly (measured: 60 s timeout vs 0.3 s on the same query)
+        # hybrid: the incremental core answers the many easy queries fastest; when it gives up within a short
+        # budget the query is re-run on a fresh solver, whose preprocessing decides linear bit-vector arithmetic
         self.solver.push()
         self.solver.add(*st.pc)
         self.solver.add(*str_lit_axioms())
@@ -649,10 +656,22 @@ class Executor:
         r = self.solver.check()
         self._last_model = self.solver.model() if r == z3.sat else None
         self.solver.pop()
+        if r == z3.unknown:
+            self.stats['fresh_solver_retries'] = self.stats.get('fresh_solver_retries', 0) + 1
+            s2 = z3.Solver()
+            s2.set('timeout', self.timeout_ms)
+            s2.add(*st.pc)
+            s2.add(*str_lit_axioms())
+            if extra is not None:
+                s2.add(extra)
+            r = s2.check()
+            self._last_model = s2.model() if r == z3.sat else None
         self.stats['solver_calls'] += 1
         self.stats['solver_time'] += time.time() - t0
+        if time.time() - t0 > 5 and _os_env.get('MIRSYM_SLOW'):
+            open(_os_env['MIRSYM_SLOW'], 'a').write(f"--- {time.time()-t0:.1f}s {r}\n" + '\n'.join(str(c) for c in st.pc) + f"\nEXTRA {extra}\n")
         if r == z3.unknown:
-            raise Unsupported('solver returned unknown on a feasibility query: ' + self.solver.reason_unknown())
+            raise Unsupported('solver returned unknown on a feasibility query')
         return r == z3.sat
 
     def _add(self, st, cond, model):
@@ -664,10 +683,10 @@ class Executor:
 
     def fork_on(self, st, cond, carry=None):
         """-> list of (state, carry, truth). carry (any python object graph) is copied consistently with the state."""
-        cond = z3.simplify(cond)
-        if z3.is_true(cond):
+        sc = z3.simplify(cond)
+        if z3.is_true(sc):
             return [(st, carry, True)]
-        if z3.is_false(cond):
+        if z3.is_false(sc):
             return [(st, carry, False)]
         t_ok = self.feasible(st, cond)
         mt = self._last_model if t_ok else None
@@ -741,6 +760,8 @@ class Executor:
                         break
                     if not out.where and len(st.frames) > base:
                         out.where = ' <- '.join(f.func.name.split('::')[-1] for f in reversed(st.frames[base:]))
+                    if out.kind == 'cut':
+                        st.cut_frames = list(st.frames[base:])
                     del st.frames[base:]
                     results.append((st, out))
                     break
@@ -799,27 +820,29 @@ class Executor:
             return Panic('unwind/resume in ' + frame.func.name)
         if k == 'switch':
             v = self.eval_operand(st, frame, t.data['op'])
+            succs, others = [], []
             if isinstance(v, Bool):
-                val = z3.If(v.b, z3.BitVecVal(1, 8), z3.BitVecVal(0, 8))
+                for kk, bb in t.data['targets']:
+                    c = v.b if kk != 0 else z3.Not(v.b)
+                    succs.append((c, bb))
+                    others.append(z3.Not(c))
             elif isinstance(v, Int):
-                val = v.bv
+                val = z3.simplify(v.bv)
+                for kk, bb in t.data['targets']:
+                    c = val == z3.BitVecVal(kk, val.size())
+                    succs.append((c, bb))
+                    others.append(z3.Not(c))
             else:
                 raise Unsupported(f"switchInt on {v!r} in {frame.func.name}")
-            val = z3.simplify(val)
-            succs, others = [], []
-            for kk, bb in t.data['targets']:
-                c = val == z3.BitVecVal(kk, val.size())
-                succs.append((c, bb))
-                others.append(z3.Not(c))
             if t.data['otherwise'] is not None:
                 succs.append((z3.And(*others) if others else z3.BoolVal(True), t.data['otherwise']))
             feas = []
             for c, bb in succs:
-                c = z3.simplify(c)
-                if z3.is_false(c):
+                sc = z3.simplify(c)
+                if z3.is_false(sc):
                     continue
-                if z3.is_true(c):
-                    feas = [(c, bb, None)]
+                if z3.is_true(sc):
+                    feas = [(sc, bb, None)]
                     break
                 if self.feasible(st, c):
                     feas.append((c, bb, self._last_model))
@@ -838,7 +861,7 @@ class Executor:
             return self.jump(st, frame, feas[0][1])
         if k == 'assert':
             v = self.eval_operand(st, frame, t.data['op'])
-            ok = z3.simplify(z3.Not(v.b) if t.data['neg'] else v.b)
+            ok = z3.Not(v.b) if t.data['neg'] else v.b
             outs = self.fork_on(st, ok)
             ret = Panic('INFEASIBLE', 'infeasible')
             for (s_i, _, truth) in outs:
@@ -946,6 +969,8 @@ class Executor:
         for pat, b in self.loop_bounds.items():
             if re.search(pat, frame.func.name):
                 bound = b
+        if self.cut_revisit is not None and re.search(self.cut_revisit[0], frame.func.name) and n > self.cut_revisit[1]:
+            return Panic(f'LOOP-CUT in {frame.func.name} at bb{bb}', 'cut')
         if n > bound:
             return Panic('UNWIND-BOUND in ' + frame.func.name + f' (bb{bb} visited more than {bound} times)', 'bound')
         return None
